@@ -1,4 +1,16 @@
 (* C10 — rejected or interrupted store operations lose and corrupt nothing.  Property theorems only. *)
+(* Scope of the model these theorems are about (shared by C07 C08 C09 C10):
+   - ONE live TrajectoryStore handle at a time; a merge runs with no handle open;
+   - the refinement theorem is about worlds whose file system holds store files only ([Inv]: no merged directory
+     elsewhere); merged directories are covered by the merge / merged-read theorems (C09, C10);
+   - a fault is an exception raised IN FRONT of a file-system call (the call has no effect); os.rename is atomic and
+     stays on one device; a crash inside rename / json.dump is not modelled;
+   - payloads are reduced to a tag, a flight id, the identity of the field sets and a size; the contents of the other
+     fields are C03's subject. *)
+(* "Can be retried" is proved for REFUSED merges only (C10_refused_merge_changes_nothing / _retryable: nothing is left
+   behind).  After an INTERRUPTION what is proved is safety (every input intact in exactly one place, nothing else
+   touched) and honest metadata (C10_merge_crash_safe, C10_merge_outcome) — NOT roll-back: the inputs already moved stay
+   in the output directory and a retry into that directory is refused. *)
 From Coq Require Import ZArith List Bool.
 From AV Require Import model.Store_Model proofs.Store_Proofs proofs.Store_Refine
                        proofs.Store_MergeProofs proofs.Store_MergedReads proofs.Store_Corollaries.
@@ -56,7 +68,16 @@ Theorem C10_merge_outcome :
 Proof. exact merge_outcome. Qed.
 Print Assumptions C10_merge_outcome.
 
-(* a refused merge (any validation rule) changes nothing, so it can be retried with corrected arguments *)
+(* liveness: preconditions met and no fault => the merge succeeds (so "refuse everything" is not a model of C10) *)
+Theorem C10_merge_succeeds_when_preconditions_hold :
+  forall fs0 outp ins, Pre fs0 outp ins ->
+    snd (merge_run fixed_cfg fs0 outp ins None) = OUnit /\
+    Complete fs0 outp ins (fst (merge_run fixed_cfg fs0 outp ins None)).
+Proof. exact merge_succeeds. Qed.
+Print Assumptions C10_merge_succeeds_when_preconditions_hold.
+
+(* a refused merge (any validation rule) changes nothing, so it can be retried with corrected arguments
+   (REFUSED merges only; see the header for interruptions) *)
 Theorem C10_refused_merge_changes_nothing :
   forall fs0 outp ins fs' e, merge_run fixed_cfg fs0 outp ins None = (fs', OErr e) -> fs' = fs0.
 Proof. exact merge_refused_unchanged. Qed.
